@@ -4,6 +4,7 @@ CONSTANTS
   Paths = {"p", "q"}
   MaxTs = 3
   WithDeletes = TRUE
+  WithSuppression = FALSE
   Mutant = "none"
 INVARIANTS FeedFaithful NothingSilent
 PROPERTIES AllReturn
